@@ -683,6 +683,7 @@ class LLMGenerationActions:
                         )
                         if len(parsed["flows"]) != 1:
                             raise ValueError("The generated steps must form a single flow.")
+                        self._check_generated_flow(parsed["flows"][0])
                         break
                     except Exception as e:
                         # If we could not parse the flow on the last line, we return a general response
@@ -711,6 +712,28 @@ class LLMGenerationActions:
                 )
 
         return ActionResult(return_value=None)
+
+    def _check_generated_flow(self, flow: dict):
+        """Check that a flow generated by the LLM is a plain sequence of steps that is safe to start.
+
+        Loops, backward jumps and calls to unknown subflows would make the runtime loop forever or
+        fail when the flow is started.
+        """
+        known_flow_ids = {f["id"] for f in self.config.flows if isinstance(f, dict)}
+        for element in flow["elements"]:
+            element_type = element.get("_type")
+            if element_type == "while":
+                raise ValueError("Loops are not supported in generated flows.")
+            if (
+                element_type == "jump"
+                and not element.get("_absolute")
+                and int(element.get("_next", 1)) <= 0
+            ):
+                raise ValueError("Backward jumps are not supported in generated flows.")
+            if element_type == "flow":
+                flow_name = str(element.get("flow_name", "")).split("(")[0].strip()
+                if not flow_name.startswith("$") and flow_name not in known_flow_ids:
+                    raise ValueError(f"Unknown subflow '{flow_name}' in generated flow.")
 
     def _render_string(
         self,
